@@ -648,14 +648,19 @@ func propSim(c SimCase) pbt.Outcome {
 var Props = []*pbt.Entry{
 	pbt.Def("rule_roundtrip", ruleRoundtripRule, genRT, propRT),
 	pbt.Def("sim_rules",
-		"machines of 1..2 processors (2..4 registers, 1..2 ports each, rsize 8|16) running 1..9-line programs over "+
-			"{add clr cpy dec i2r i2rw inc j nop r2o r2owa rset}, external inputs/outputs bonded to the ports; 1..8 rules over the objects "+
-			"GetElementLocation resolves (iK oK pXiK pXoK pXrK) built by Add/Suspend/Del and passed through the JSON rule file; run by a "+
-			"statement-by-statement copy of the `-sim` loop of cmd/bondmachine (1..20 interactions, optional -sim-stop-on-valid-of). "+
-			"Oracle: own rule parser + own object table + a fresh VM poked directly; full machine state before and after every tick, show "+
-			"lines, report header and rows must agree. Tick convention (docs silent, from the CLI loop): absolute:T:set is injected before "+
-			"the step of iteration T (0-based) and raises valid on an external input; get/show of tick T sample after that step; "+
-			"relative:P fires when T%P==0. One metamorphic re-run per case (drop suspended+deleted rules / permute independent rules). "+
+		"machines of 1..2 processors (2..4 registers, 1..2 ports each, rsize 8|16) running 1..10-line programs over "+
+			"{add clr cpy dec i2r i2rw inc j nop r2o r2owa rset}, 1..2 external inputs/outputs bonded to the ports; 1..12 rules over the objects "+
+			"GetElementLocation resolves (iK oK pXiK pXoK pXrK; a few absent, flag and documented-but-unresolved names) built by Add, Suspend and "+
+			"Del and passed through the JSON rule file; run by a statement-by-statement copy of the `-sim` loop of cmd/bondmachine "+
+			"(1..28 interactions, optional -sim-stop-on-valid-of). Oracle: own rule parser + own object table + a fresh VM poked directly; "+
+			"full machine state before and after every tick, show lines, report header and rows must agree; an absolute set must be visible "+
+			"in the state entering its tick (with valid raised on an external input) and the run must equal the set-free reference before "+
+			"the first set. Tick convention (docs silent, from the CLI loop): absolute:T:set is injected before the step of iteration T "+
+			"(0-based); get/show of tick T sample after that step; relative:P fires when T%P==0; onvalid fires on the tick whose step leaves "+
+			"the flag high after it was low; onexit fires on the iteration that shuts the run down. One metamorphic re-run per case (drop "+
+			"suspended+deleted rules / permute independent rules). Excluded by class and counted: the recorded findings periodic-set-ignored, "+
+			"event-get-ignored, onexit-not-fired-at-budget-end, format-unimplemented, doc-object-names-unresolved, and out-of-domain rules "+
+			"(period 0, flag objects, unknown formats). "+
 			"non-trivial = >=1 active set changes the state trace w.r.t. the set-free reference AND >=1 report row or show line is produced",
 		genSimCase, propSim),
 	pbt.Def("sim_pipeline",
